@@ -2,6 +2,8 @@ import GdcVerif.Lemmas.J2kGlue
 import GdcVerif.Lemmas.T1Lock
 import GdcVerif.Lemmas.T1Model
 import GdcVerif.Lemmas.T1Termall
+import GdcVerif.Lemmas.T1PipeFinal
+import GdcVerif.Lemmas.T1Side
 /-! T1 hand-over around the packets: encodeCodeBlock → packet header → estimateMaxBitplane → DecodeWithBitplane -/
 namespace J2kGlue
 open J2k J2kPH T1
@@ -86,61 +88,66 @@ theorem findMaxBitplane_lt (V : Array Int) (k mb : Nat) (hb : ∀ j, (gi V j).na
     rw [← h]
     exact (Nat.log2_lt hm).mpr hlt
 
-/-- admissible block. Named hypotheses (NOT proved anywhere yet):
-    * `zero`  — an all-zero block: the decoder's single cleanup pass over the bytes of an MQ coder that was only
-                flushed returns zeros;
-    * `bytes` — the T1 output of a block fits decodePacket's `maxSegmentLength` (no T1 size bound is proved).
-    Discharged hypotheses of the layers: length, `|c| < 2^25` (Go shifts the coefficient left by 6 in int32),
-    `bandNumbps < 32` (zero-bit-plane tag tree is decoded with threshold 32). -/
+/-- admissible block.  Named hypothesis (not proved): `bytes` — the T1 output of a block fits decodePacket's
+    `maxSegmentLength` (only the crude bound `C20.mq_len_bound` exists).  Side conditions: length, `|c| < 2^25`
+    (Go shifts the coefficient left by 6 in int32), `bandNumbps < 32` (zero-bit-plane tag tree is read with
+    threshold 32).  The all-zero block is covered by `C20.t1_pipeline_zero_block`. -/
 structure BlkOk (b : Blk) : Prop where
   len : b.coeffs.length = b.w * b.h
   bnd : ∀ c ∈ b.coeffs, c.natAbs < 2 ^ 25
   nb32 : b.nb < 32
-  zero : findMaxBitplane (padBlock b.w b.h b.coeffs) = none → ∀ bytes,
-    encodeBlock b.w b.h b.orient 0 b.coeffs 1 = .ok bytes → decodeBlock b.w b.h b.orient 0 1 0 bytes = .ok b.coeffs
   bytes : ∀ np bs, encodeBlock b.w b.h b.orient 0 b.coeffs np = .ok bs → bs.length ≤ 65535
 
-theorem decodeBlock_ok_ne (w h o s np : Nat) (mb : Int) (bytes : List Nat) (out : List Int)
-    (h : decodeBlock w h o s np mb bytes = .ok out) : bytes ≠ [] := by
+theorem decodeBlockOJ_ok_ne (w h o s np : Nat) (mb : Int) (bytes : List Nat) (out : List Int)
+    (h : decodeBlockOJ w h o s np mb bytes = .ok out) : bytes ≠ [] := by
   intro hb
   subst hb
-  unfold decodeBlock at h
+  unfold decodeBlockOJ at h
   simp at h
 
-/-- ONE BLOCK through encodeCodeBlock, the packet header fields and decodeCodeBlock -/
+/-- the top plane of the shifted block -/
+theorem findMax_shift6 (w h : Nat) (cs : List Int) :
+    findMaxBitplane (padBlock w h (shift6 cs)) = (findMaxBitplane (padBlock w h cs)).map (· + 6) := by
+  unfold shift6
+  rw [padBlock_map w h cs _ (by simp), findMax_scale]
+
+/-- the real encoder call equals the plain model's (C20 `t1_pipeline_encode`) -/
+theorem encodeF_shift6 (w h o : Nat) (cs : List Int) (np : Nat) :
+    encodeBlockF 6 w h o 0 (shift6 cs) np = encodeBlock w h o 0 cs np :=
+  encodeBlockF_scale 6 w h o 0 cs np (by decide) (by decide) (by decide) (by decide) (by decide)
+
+/-- ONE BLOCK through encodeCodeBlock (shift by 6, T1 with 6 fractional bits), the packet header fields,
+    estimateMaxBitplane and decodeCodeBlock (OpenJPEG reconstruction, then halving) -/
 theorem blk_roundtrip (b : Blk) (hok : BlkOk b) :
     ∃ np zbp data, t1Encode b = some (np, zbp, data) ∧ data ≠ [] ∧ 1 ≤ np ∧ np ≤ 164 ∧ zbp < 32 ∧
       data.length ≤ 65535 ∧ t1Decode b.w b.h b.orient b.nb ⟨true, np, data.length, zbp⟩ data = some b.coeffs := by
-  have hb31 : ∀ c ∈ b.coeffs, c.natAbs < 2147483648 := fun c hc => by have := hok.bnd c hc; omega
+  have hb29 : ∀ c ∈ b.coeffs, c.natAbs < 536870912 := fun c hc => by have := hok.bnd c hc; omega
   cases hmb : findMaxBitplane (padBlock b.w b.h b.coeffs) with
   | none =>
-    obtain ⟨bytes, henc⟩ := encodeBlock_no_panic_all b.w b.h b.orient 0 b.coeffs 1 hok.len (by decide) (by decide)
-    have hdec := hok.zero hmb bytes henc
-    have hne := decodeBlock_ok_ne _ _ _ _ _ _ _ _ hdec
-    refine ⟨1, b.nb, bytes, ?_, hne, by omega, by omega, hok.nb32, hok.bytes 1 bytes henc, ?_⟩
+    have henc := (encode_zero_bytes 6 b.w b.h b.orient 0 b.coeffs 1 hok.len hmb).2
+    have hdec := decodeBlockOJ_zero b.w b.h b.orient 0 1 (by decide)
+    have hzero := zero_of_nomax b.w b.h b.coeffs hok.len hmb
+    refine ⟨1, b.nb, [255, 127], ?_, by simp, by omega, by omega, hok.nb32, by simp, ?_⟩
     · unfold t1Encode cblkNumbps passLayout
-      simp [hmb, henc]
+      rw [findMax_shift6, hmb]
+      simp [encodeF_shift6, henc]
     · unfold t1Decode
-      have he : ¬ (bytes.isEmpty = true) := by
-        cases bytes with
-        | nil => exact absurd rfl hne
-        | cons a t => simp
-      simp only [estimate_zero, he]
-      simp [hdec]
+      simp only [estimate_zero]
+      have h1 : ((1 : Nat) : Int) = 1 := rfl
+      rw [h1] at hdec
+      simp [hdec, halveT, hzero]
   | some mb =>
-    obtain ⟨bytes, henc, hdec⟩ := T1.t1_roundtrip b.w b.h b.orient mb b.coeffs hok.len hb31 hmb
-    have hne := decodeBlock_ok_ne _ _ _ _ _ _ _ _ hdec
-    have hmb25 : mb < 25 := findMaxBitplane_lt _ 25 mb
-      (fun j => by
-        have h1 := padBlock_bound25 b.w b.h b.coeffs hok.bnd j
-        exact h1) hmb
+    obtain ⟨bytes, out, henc, hdec, hout⟩ := t1_roundtrip_oj b.w b.h b.orient mb b.coeffs hok.len hb29 hmb
+    have hne := decodeBlockOJ_ok_ne _ _ _ _ _ _ _ _ hdec
+    have hmb25 : mb < 25 := findMaxBitplane_lt _ 25 mb (padBlock_bound25 b.w b.h b.coeffs hok.bnd) hmb
     have hnp : 3 * (mb + 1) - 2 = 3 * mb + 1 := by omega
     refine ⟨3 * (mb + 1) - 2, b.nb - (mb + 1), bytes, ?_, hne, by omega, by omega, by have := hok.nb32; omega,
       hok.bytes _ bytes henc, ?_⟩
     · unfold t1Encode cblkNumbps passLayout
-      simp only [hmb]
+      rw [findMax_shift6, hmb]
+      have e1 : mb + 6 + 1 - 6 = mb + 1 := by omega
       have : mb + 1 > 0 := by omega
-      simp only [this, if_true, hnp, henc]
+      simp only [Option.map_some, e1, this, if_true, hnp, encodeF_shift6, henc]
     · unfold t1Decode
       have he : ¬ (bytes.isEmpty = true) := by
         cases bytes with
@@ -149,9 +156,8 @@ theorem blk_roundtrip (b : Blk) (hok : BlkOk b) :
       simp only [estimate_nonzero, he]
       have hneg : ¬ (((mb + 1 : Nat) : Int) < 0) := by omega
       simp only [hneg]
-      have hcast : ((mb + 1 : Nat) : Int) - 1 = (mb : Int) := by omega
-      rw [hcast, hnp, hdec]
-      simp
+      rw [hnp, hdec]
+      simp [hout]
 
 /-! ### lifting over bands, packets and the tile -/
 
